@@ -3,7 +3,7 @@ _T = dict(timeout=240, timeout_thorough=1800)
 SPEC = dict(
     level="exploration",
     technique="runtime monitor: reference model of the 40x250ms outcome window run side by side with the real breaker on the virtual clock (lib/timex hook), compared with googleBreaker.history() before and after every call; martingale bound on rejection frequency vs. the model's drop ratio; -race stress with accounting checked at quiescence; black-box benign/failing outcome tables through the real HTTP, gRPC, SQL and Redis integrations",
-    level_text="Quick: 300 seeded histories (200-2000 steps, ~175k calls) over Do/DoWithAcceptable/DoWithFallback/DoWithFallbackAcceptable/Allow(+deferred Accept/Reject), direct and via the named registry, outcomes ok/acceptable err/unacceptable err/panic, clock advances around every bucket and window boundary before and inside calls; each call is checked for: admitted whenever the model's trailing window has total-5 <= 1.5*accepts; a call whose req did not run returns/feeds ErrServiceUnavailable exactly once and records nothing; an admitted call records exactly one outcome of the right polarity (history() == model after every step); panic re-raised unchanged. 12 trip/recover scripts (>=500 failures => >=1 rejection in the next 200 calls; after >=10 s no rejection). -race: 120 phases x 32 goroutines x 30 calls on 3 named breakers with a concurrent clock advancer, accounting at quiescence, Get(name) identity. Integration tables: HTTP statuses 100-599 through BreakerHandler, all 17 gRPC codes through codes.Acceptable and the client/unary/stream interceptors, SQL (Exec/QueryRow/Transact x ErrNoRows/ErrTxDone/Canceled/custom accept/driver errors), Redis (nil/redis.Nil/Canceled/ERR replies/expired context): every benign outcome alone x150 and 10000 mixed => 0 rejections, every failing outcome alone x400 => at least one rejection. Held = no deviation on the executions observed, not a proof.",
+    level_text="Quick: 300 seeded histories (200-2000 steps, ~175k calls) over Do/DoWithAcceptable/DoWithFallback/DoWithFallbackAcceptable/Allow(+deferred Accept/Reject), direct and via the named registry, outcomes ok/acceptable err/unacceptable err/panic, clock advances around every bucket and window boundary before and inside calls; each call is checked for: admitted whenever the model's trailing window has total-5 <= 1.5*accepts; a call whose req did not run returns/feeds ErrServiceUnavailable exactly once and records nothing; an admitted call records exactly one outcome of the right polarity (history() == model after every step); panic re-raised unchanged. 12 trip/recover scripts (>=500 failures => >=1 rejection in the next 200 calls; after >=10 s no rejection). -race: 120 phases x 32 goroutines x 30 calls on 3 named breakers with a concurrent clock advancer, accounting at quiescence, Get(name) identity. Integration tables: HTTP statuses 100-599 through BreakerHandler, all 17 gRPC codes through codes.Acceptable and the client/unary/stream interceptors, SQL (conn flavours plain / accept option set / NewMySQL x all 14 breaker-guarded entry points Exec, Prepare, QueryRow(s)[Partial], Transact and Ctx forms x nil/ErrNoRows/ErrTxDone/Canceled/flavour-accepted error/driver errors: the built-in benign set must stay benign on conns carrying a custom accept), Redis (nil/redis.Nil/Canceled/ERR replies/expired context): every benign outcome alone x150 and 10000 mixed => 0 rejections, every failing outcome alone x400 => at least one rejection. Held = no deviation on the executions observed, not a proof.",
     level_note="Trusts: Go runtime and race detector, the lib/timex virtual-clock hook, the ~40-line bucket model (buckets aligned to the breaker's birth, 40 visible including the current one), the transparent spy breakers used in sqlx/redis (delegate to the real breaker). The random decision of an individual rejectable call is never asserted; the frequency clause uses the anchored drop-ratio formula max(0,(total-5-1.5*accepts)/(total+1)) with a martingale threshold 8*sigma+25 (false-alarm probability < 1e-12 per band). Integration tables outside lib/breaker are black box (rejected = protected function did not run): a benign outcome that was mis-recorded as a failure is seen because 150 of them in a row would trip the breaker with probability > 1-1e-100.",
     design_ref="DESIGN.md §3 C01",
     assumptions=[
